@@ -147,6 +147,176 @@ let suite_rt cap hex =
   let fi = match o with ENone -> one bytes | _ -> "P" in
   "b" ^ fb ^ ";i" ^ fi
 
+(* ---------- parser suites ---------- *)
+let hex_of_pos (p : positive) : string =
+  (* bits, least significant first *)
+  let rec bits p acc = match p with XH -> 1 :: acc | XO q -> bits q (0 :: acc) | XI q -> bits q (1 :: acc) in
+  let bs = bits p [] in                     (* most significant first *)
+  let n = List.length bs in
+  let padn = (4 - (n mod 4)) mod 4 in
+  let bs = List.init padn (fun _ -> 0) @ bs in
+  let b = Buffer.create 16 in
+  let rec go = function
+    | a :: b' :: c :: d :: r -> Buffer.add_string b (Printf.sprintf "%x" ((a * 8) + (b' * 4) + (c * 2) + d)); go r
+    | _ -> ()
+  in
+  go bs; Buffer.contents b
+let hex_of_n (x : n) : string = match x with N0 -> "0" | Npos p -> hex_of_pos p
+let hex_of_z (x : z) : string = match x with Z0 -> "0" | Zpos p -> hex_of_pos p | Zneg p -> "-" ^ hex_of_pos p
+
+let opt f = function None -> "~" | Some x -> f x
+let time_str (x : time) = "T" ^ hex_of_n x
+let status_str = function
+  | Status8 x -> "S8:" ^ hex_of_n x | Status16 x -> "S16:" ^ hex_of_n x
+  | Status32 x -> "S32:" ^ hex_of_n x | Status64 x -> "S64:" ^ hex_of_n x
+let value_str = function
+  | VBool b -> "B" ^ b01 b
+  | VBytes l -> "Y" ^ hex_of_bytes l
+  | VI8 z -> "I8:" ^ hex_of_z z | VI16 z -> "I16:" ^ hex_of_z z
+  | VI32 z -> "I32:" ^ hex_of_z z | VI64 z -> "I64:" ^ hex_of_z z
+  | VU8 x -> "U8:" ^ hex_of_n x | VU16 x -> "U16:" ^ hex_of_n x
+  | VU32 x -> "U32:" ^ hex_of_n x | VU64 x -> "U64:" ^ hex_of_n x
+  | VList t -> "L(" ^ time_str t ^ ")"
+let le_str (e : list_entry) =
+  Printf.sprintf "(E %s %s %s %s %s %s %s)" (hex_of_bytes e.obj_name) (opt status_str e.le_status)
+    (opt time_str e.val_time) (opt hex_of_n e.le_unit) (opt hex_of_z e.scaler) (value_str e.le_value)
+    (opt hex_of_bytes e.value_signature)
+let open_str (o : open_response) =
+  Printf.sprintf "(O %s %s %s %s %s %s)" (opt hex_of_bytes o.codepage) (opt hex_of_bytes o.o_client_id)
+    (hex_of_bytes o.req_file_id) (hex_of_bytes o.o_server_id) (opt time_str o.ref_time) (opt hex_of_n o.sml_version)
+let close_str sg = Printf.sprintf "(C %s)" (opt hex_of_bytes sg)
+let glr_str (g : get_list_response) =
+  Printf.sprintf "(G %s %s %s %s [%s] %s %s)" (opt hex_of_bytes g.g_client_id) (hex_of_bytes g.g_server_id)
+    (opt hex_of_bytes g.list_name) (opt time_str g.act_sensor_time)
+    (String.concat " " (List.map le_str g.val_list)) (opt hex_of_bytes g.list_signature)
+    (opt time_str g.act_gateway_time)
+let body_str = function BOpen o -> open_str o | BClose s -> close_str s | BGetList g -> glr_str g
+let msg_str (m : message) =
+  Printf.sprintf "(M %s %s %s %s)" (hex_of_bytes m.transaction_id) (hex_of_n m.group_no)
+    (hex_of_n m.abort_on_error) (body_str m.message_body)
+let tlferr_str = function
+  | TlfLengthOverflow -> "Overflow" | TlfReserved -> "Reserved" | TlfLengthUnderflow -> "Underflow"
+  | TlfNextByteTypeMismatch -> "NextByte" | TlfInvalidTy -> "InvalidTy"
+let perr_str = function
+  | LeftoverInput -> "Leftover" | UnexpectedEOF -> "EOF" | InvalidTlf e -> "Tlf:" ^ tlferr_str e
+  | TlfMismatch -> "Mismatch" | CrcMismatch -> "Crc" | MsgEndMismatch -> "MsgEnd"
+  | UnexpectedVariant -> "Variant"
+let file_str (f : message list) = "ok:" ^ nonempty (String.concat " " (List.map msg_str f))
+let parse_str = function
+  | FileOk f -> file_str f
+  | FileErr e -> "err:" ^ perr_str e
+  | FilePanic -> "P"
+let gs_str (g : glr_start) =
+  Printf.sprintf "(GS %s %s %s %s %s)" (opt hex_of_bytes g.s_client_id) (hex_of_bytes g.s_server_id)
+    (opt hex_of_bytes g.s_list_name) (opt time_str g.s_act_sensor_time) (hex_of_n g.num_vals)
+let sbody_str = function SOpen o -> open_str o | SClose s -> close_str s | SGetList g -> gs_str g
+let event_str = function
+  | EMessageStart m ->
+    Printf.sprintf "(MS %s %s %s %s)" (hex_of_bytes m.ms_transaction_id) (hex_of_n m.ms_group_no)
+      (hex_of_n m.ms_abort_on_error) (sbody_str m.ms_body)
+  | EGetListEnd (s, t) -> Printf.sprintf "(GE %s %s)" (opt hex_of_bytes s) (opt time_str t)
+  | EListEntry e -> le_str e
+let snext_str = function
+  | SNone -> "-" | SEvent e -> event_str e | SErr e -> "err:" ^ perr_str e | SPanic -> "P"
+
+(* the items of the iteration: up to the first None, then [extra] further calls *)
+let stream_str (bs : n list) (extra : int) : string =
+  let all = sp_calls (nat_of_int (List.length bs + 2 + extra)) (sp_new bs) in
+  let rec split acc = function
+    | [] -> (List.rev acc, [])
+    | SNone :: r -> (List.rev acc, SNone :: r)
+    | x :: r -> split (x :: acc) r
+  in
+  let items, rest = split [] all in
+  let rec take k l = if k = 0 then [] else match l with [] -> [] | x :: r -> x :: take (k - 1) r in
+  (* rest starts with the first None; the extra calls are those after it *)
+  let extras = match rest with [] -> [] | _ :: r -> take extra r in
+  nonempty (join (List.map snext_str items)) ^ "|" ^ nonempty (join (List.map snext_str extras))
+
+(* parse <hex>: complete::parse # streaming events *)
+let suite_parse hex =
+  let bs = bytes_of_hex hex in
+  parse_str (parse bs) ^ " # " ^ stream_str bs 3
+
+(* tlf <hex>: TypeLengthField::parse as seen through a list TLF / octet string (see harness) *)
+let suite_tlf hex =
+  match tlf_parse (bytes_of_hex hex) with
+  | POk (rest, t) ->
+    let tyc = match t.tty with TOctet -> "o" | TBool -> "b" | TInt -> "i" | TUns -> "u" | TList -> "l" in
+    Printf.sprintf "ok:%s:%s:%d" tyc (hex_of_n t.tlen) (List.length rest)
+  | PErr e -> "err:" ^ perr_str e
+  | PPanic -> "P"
+
+(* ---------- reader suite ---------- *)
+let ek_str = function EkEof -> "Eof" | EkWouldBlock -> "WouldBlock" | EkOther -> "Other"
+let item_str = function
+  | IBytes m -> "M" ^ hex_of_bytes m
+  | IFile f -> "F{" ^ file_str f ^ "}"
+  | IEvents evs ->
+    let rec upto acc = function [] -> List.rev acc | SNone :: _ -> List.rev acc | x :: r -> upto (x :: acc) r in
+    "V{" ^ nonempty (join (List.map snext_str (upto [] evs))) ^ "}"
+  | IParseErr e -> "PE" ^ perr_str e
+  | IDecErr e -> "E" ^ err_str e
+  | IIoErr (k, n) -> "IO" ^ ek_str k ^ ":" ^ dec_of_n n
+  | IPanic -> "P"
+let callres_str = function CItem i -> item_str i | CNone -> "-" | CWouldBlock -> "WB"
+
+let sevs_of_string (s : string) : sev list =
+  List.concat_map
+    (fun tok ->
+      if tok = "" then []
+      else
+        match tok.[0] with
+        | 'x' -> List.map (fun b -> SByte b) (bytes_of_hex (String.sub tok 1 (String.length tok - 1)))
+        | 'W' -> [ SWouldBlock ] | 'I' -> [ SInterrupted ] | 'O' -> [ SOther ] | 'Z' -> [ SZero ]
+        | _ -> failwith "bad source event")
+    (String.split_on_char ',' s)
+
+let calls_of_string (s : string) : (meth * target) list =
+  let l = String.length s in
+  List.init (l / 2) (fun i ->
+      let m = match s.[2 * i] with 'r' -> MRead | 'n' -> MNext | 'R' -> MReadNb | 'N' -> MNextNb | _ -> failwith "meth" in
+      let t = match s.[(2 * i) + 1] with 'b' -> TBytes | 'f' -> TFile | 'p' -> TParser | _ -> failwith "target" in
+      (m, t))
+
+(* rd <kind> <cap> <events> <calls> *)
+let suite_rd kind cap evs calls =
+  let k = match kind with "slice" | "iter" -> KSlice | "io" -> KIo | "eh" -> KEh | _ -> failwith "kind" in
+  let rs = sr_calls cap (calls_of_string calls) (rd_new k (sevs_of_string evs)) in
+  (* the harness stops at the first panic *)
+  let rec cut = function [] -> [] | CItem IPanic :: _ -> [ CItem IPanic ] | x :: r -> x :: cut r in
+  nonempty (join (List.map callres_str (cut rs)))
+
+(* ---------- ArrayBuf suite ---------- *)
+let aops_of_string (s : string) : aop list =
+  List.filter_map
+    (fun tok ->
+      if tok = "" then None
+      else
+        let arg = String.sub tok 1 (String.length tok - 1) in
+        match tok.[0] with
+        | 'p' -> Some (OpPush (List.hd (bytes_of_hex arg)))
+        | 'e' -> Some (OpExtend (bytes_of_hex arg))
+        | 't' -> Some (OpTruncate (nat_of_int (int_of_string arg)))
+        | 'c' -> Some OpClear
+        | _ -> failwith "bad abuf op")
+    (String.split_on_char ',' s)
+
+let ares_str = function AOk -> "k" | AOom -> "o" | APanic -> "P"
+let suite_abuf n ops =
+  let n = nat_of_int n in
+  let rs = ab_run n (ab_default n) (aops_of_string ops) in
+  nonempty (join (List.map (fun (r, c) -> ares_str r ^ ":" ^ (match c with Some l -> hex_of_bytes l | None -> "P")) rs))
+let suite_abfrom n hex =
+  match ab_from_iter (nat_of_int n) (bytes_of_hex hex) with
+  | Some a -> (match ab_deref a with Some l -> "ok:" ^ hex_of_bytes l | None -> "P")
+  | None -> "P"
+let suite_abeq n ops1 ops2 =
+  let n = nat_of_int n in
+  let a = ab_state n (ab_default n) (aops_of_string ops1) in
+  let b = ab_state n (ab_default n) (aops_of_string ops2) in
+  match ab_eq a b with Some e -> "eq:" ^ b01 e ^ ":" ^ b01 e ^ ":1" | None -> "P"
+
 let suite_frame hex = hex_of_bytes (frame (bytes_of_hex hex))
 let suite_crc hex = dec_of_n (crc16 (bytes_of_hex hex))
 
@@ -158,6 +328,12 @@ let handle (line : string) : string =
   | [ "fdecode"; hex ] -> suite_fdecode hex
   | [ "fstream"; cap; k; hex ] -> suite_fstream (cap_of_string cap) (int_of_string k) hex
   | [ "rt"; cap; hex ] -> suite_rt (cap_of_string cap) hex
+  | [ "parse"; hex ] -> suite_parse hex
+  | [ "tlf"; hex ] -> suite_tlf hex
+  | [ "rd"; kind; cap; evs; calls ] -> suite_rd kind (cap_of_string cap) evs calls
+  | [ "abuf"; n; ops ] -> suite_abuf (int_of_string n) ops
+  | [ "abfrom"; n; hex ] -> suite_abfrom (int_of_string n) hex
+  | [ "abeq"; n; o1; o2 ] -> suite_abeq (int_of_string n) o1 o2
   | [ "frame"; hex ] -> suite_frame hex
   | [ "crc"; hex ] -> suite_crc hex
   | _ -> failwith ("unknown suite: " ^ line)
